@@ -743,7 +743,7 @@ func genHoCase(t *rapid.T) HoCase {
 
 func TestC06_HandOver(t *testing.T) {
 	RunProp(t, Prop[HoCase]{
-		ID: "C06", Name: "handover", Quick: 240, Thor: 8000,
+		ID: "C06", Name: "handover", Quick: 480, Thor: 8000,
 		Gen: genHoCase, Run: runHoCase,
 		Rule: "histories of 4-24 rounds that fill every queue (voted hash batches of 1-16 hashes incl. batches not starting at tip+1, deposit batches of 1-12, refunds from undecodable addresses and approved cancellations, claims and unlock bursts above the caps) under six round shapes: real PrepareProposal+ProcessProposal+FinalizeBlock, harness-built honest proposal, proposals prepared 1-3 times but never finalised, proposals whose system section is mutated (drop, duplicate, swap, foreign tx in front, invented tx at the end; block hash and count byte kept consistent) which must be REJECTED and whose message must fail when force-finalised, blocks without an execution-block message, failing execution-block messages; restarts between blocks; oracle: per-kind FIFO model with caps (1 hash, 8 deposits, 8 paid+refund, 16 rewards, 16 unlocks) and per-module nonces, compared with the payload attributes the fake execution layer receives at every prepare and with the leading transactions of every finalised payload; after a drain every owed item was delivered exactly once in order; voted heights are gap-free and never rewritten; non-trivial = a queue exceeded its cap or a non-finalised/rejected/failed round happened with non-empty queues; evaluations count rounds",
 	})
